@@ -24,9 +24,9 @@ type Case struct {
 
 var (
 	binOps   = []string{"+", "-", "*", "/", "floor", "ceiling", "truncate", "round", "mod", "rem", "min", "max", "incf", "decf"}
-	intBin   = []string{"gcd", "lcm", "logand", "logior", "logxor"}
-	unaryRat = []string{"abs", "1+", "1-", "-", "/", "floor", "ceiling", "truncate", "round", "zerop", "plusp", "minusp", "+", "*", "min", "max"}
-	unaryInt = []string{"isqrt", "lognot", "gcd", "lcm", "logand", "logior", "logxor"}
+	intBin   = []string{"gcd", "lcm", "logand", "logior", "logxor", "logeqv", "lognand", "lognor", "logandc1", "logandc2", "logorc1", "logorc2", "logtest"}
+	unaryRat = []string{"abs", "1+", "1-", "-", "/", "floor", "ceiling", "truncate", "round", "zerop", "plusp", "minusp", "+", "*", "min", "max", "signum", "numerator", "denominator"}
+	unaryInt = []string{"isqrt", "lognot", "gcd", "lcm", "logand", "logior", "logxor", "logeqv", "logcount", "integer-length", "evenp", "oddp", "signum", "numerator", "denominator"}
 	cmpOps   = []string{"=", "/=", "<", "<=", ">", ">="}
 )
 
@@ -115,7 +115,7 @@ func gridOps() []string {
 	ops := append([]string{}, binOps...)
 	ops = append(ops, intBin...)
 	ops = append(ops, cmpOps...)
-	ops = append(ops, "ash", "expt")
+	ops = append(ops, "ash", "expt", "logbitp")
 	return ops
 }
 
@@ -210,6 +210,10 @@ func gen(r *rand.Rand, i int, tier string) Case {
 			sh := []int64{0, 1, -1, 2, -2, 31, -31, 32, -32, 62, -62, 63, -63, 64, -64, 65, -65, 100, -100, 130, -130, 5, -5, 61, -61}
 			return Case{Op: op, Args: []string{a.String(), fmt.Sprint(sh[(k%len(grid))%len(sh)])}}
 		}
+		if op == "logbitp" {
+			ix := []int64{0, 1, 2, 30, 31, 32, 33, 61, 62, 63, 64, 65, 66, 100, 3, 5, 7, 15, 16, 47, 48, 127, 128, 200, 1000}
+			return Case{Op: op, Args: []string{fmt.Sprint(ix[(k/len(grid))%len(ix)]), b.String()}}
+		}
 		if op == "expt" {
 			ex := []int64{0, 1, 2, 3, 4, 5, 7, 8, 10, 16, 31, 32, 33, 62, 63, 64, 65, 70, -1, -2, -3, 6, 9, 20, 40}
 			e := ex[(k%len(grid))%len(ex)]
@@ -259,6 +263,10 @@ func gen(r *rand.Rand, i int, tier string) Case {
 	case 2: // integer binary / n-ary
 		op := fw.Pick(r, intBin)
 		n := 2 + r.IntN(2)
+		switch op {
+		case "lognand", "lognor", "logandc1", "logandc2", "logorc1", "logorc2", "logtest":
+			n = 2
+		}
 		var args []string
 		for k := 0; k < n; k++ {
 			args = append(args, randInt(r).String())
@@ -534,6 +542,12 @@ func oracle(c Case, vals []*big.Rat, classes []string) expect {
 		return one(new(big.Rat).Add(vals[0], big.NewRat(1, 1)))
 	case "1-":
 		return one(new(big.Rat).Sub(vals[0], big.NewRat(1, 1)))
+	case "signum":
+		return one(big.NewRat(int64(vals[0].Sign()), 1))
+	case "numerator":
+		return one(ratInt(vals[0].Num()))
+	case "denominator":
+		return one(ratInt(vals[0].Denom()))
 	case "incf":
 		return one(new(big.Rat).Add(vals[0], vals[1]))
 	case "decf":
@@ -581,6 +595,63 @@ func oracle(c Case, vals []*big.Rat, classes []string) expect {
 			}
 		}
 		return one(ratInt(acc))
+	case "logeqv":
+		acc := big.NewInt(-1)
+		for _, v := range vals {
+			acc.Not(acc.Xor(acc, v.Num()))
+		}
+		return one(ratInt(acc))
+	case "lognand", "lognor", "logandc1", "logandc2", "logorc1", "logorc2", "logtest":
+		if n != 2 {
+			return expect{any: true}
+		}
+		a, bb := vals[0].Num(), vals[1].Num()
+		na, nb := new(big.Int).Not(a), new(big.Int).Not(bb)
+		z := new(big.Int)
+		switch c.Op {
+		case "lognand":
+			z.Not(z.And(a, bb))
+		case "lognor":
+			z.Not(z.Or(a, bb))
+		case "logandc1":
+			z.And(na, bb)
+		case "logandc2":
+			z.And(a, nb)
+		case "logorc1":
+			z.Or(na, bb)
+		case "logorc2":
+			z.Or(a, nb)
+		case "logtest":
+			return b(z.And(a, bb).Sign() != 0)
+		}
+		return one(ratInt(z))
+	case "logbitp":
+		if vals[0].Sign() < 0 || !vals[0].Num().IsInt64() || 100000 < vals[0].Num().Int64() {
+			return expect{any: true}
+		}
+		return b(vals[1].Num().Bit(int(vals[0].Num().Int64())) == 1)
+	case "logcount":
+		x := vals[0].Num()
+		if x.Sign() < 0 {
+			x = new(big.Int).Not(x)
+		}
+		cnt := 0
+		for _, w := range x.Bits() {
+			for ; w != 0; w &= w - 1 {
+				cnt++
+			}
+		}
+		return one(big.NewRat(int64(cnt), 1))
+	case "integer-length":
+		x := vals[0].Num()
+		if x.Sign() < 0 {
+			x = new(big.Int).Not(x)
+		}
+		return one(big.NewRat(int64(x.BitLen()), 1))
+	case "evenp":
+		return b(vals[0].Num().Bit(0) == 0)
+	case "oddp":
+		return b(vals[0].Num().Bit(0) == 1)
 	case "lognot":
 		return one(ratInt(new(big.Int).Not(vals[0].Num())))
 	case "isqrt":
@@ -835,10 +906,10 @@ func init() {
 		Rule: "operator x operand tuple; first block = every ordered pair of the 25-value boundary grid for every binary operator (exhaustive), " +
 			"then seeded tuples of integers up to 200 bits, ratios, and floats adjacent to grid integers; distinct = distinct (op,args); " +
 			"non-trivial = the property pins the result (exact operands or comparison)",
-		N:    nCases,
-		Gen:  gen,
-		Exec: exec,
-		Batch: 4000,
+		N:           nCases,
+		Gen:         gen,
+		Exec:        exec,
+		Batch:       4000,
 		Assumptions: []string{"math/big is the trusted oracle", "integer/ratio/float literals are read correctly (checked by C02/C03)"},
 	})
 }
